@@ -69,31 +69,80 @@ def rule_a(ck, u, eng):
                        % (fmt(ix), e.where(), '; '.join(guards), L(ix)))
     ck.verdict(bad is None and nl >= 5, 'C20.a', 'looking_at', cast.where(u.fn('looking_at')),
                'all %d reads of s[] are below n (given i < n from the caller)' % nl if bad is None and nl >= 5 else (bad or 'reads not found'))
-    # the call site establishes i < n
+    # every call site establishes position < n (looking_at reads s[i] unconditionally)
     eng2 = sym.Engine(u, sizeof={}, inline=set())
-    ps = eng2.paths('sx_parse_token')
-    ck.function('sx_parse_token')
-    ck.analysed['paths'] += len(ps)
-    bad = None
-    seen = False
-    for p in ps:
-        la = p.calls('looking_at')
-        sk = p.calls('skip_ws')
-        if not la:
+    nsites = 0
+    for caller in sorted(u.functions):
+        f = u.fn(caller)
+        fl = cast.node_file(f) or ''
+        if not fl.endswith('sx.c') or u.body(caller) is None or caller == 'looking_at':
             continue
-        seen = True
-        if not sk or la[0].args[2] != sk[0].result or la[0].args[0] != S or la[0].args[1] != N:
-            bad = 'looking_at is not applied to the position skip_ws returned'
+        if not any(cast.callee_name(c) == 'looking_at' for c in cast.calls_in(u.body(caller))):
             continue
-        facts = eng2.path_facts(p) + ([lin.le(L(sk[0].result), L(N))] if skip_le_n else [])
-        if not eng2.entails(facts, L(sk[0].result) + 1 - L(N)):
-            bad = 'looking_at reached without position < n (end-of-input test missing)'
-        for fn in ('parse_integer', 'parse_hinteger', 'parse_symbol'):
-            for e in p.calls(fn):
+        ps = eng2.paths(caller)
+        ck.function(caller)
+        ck.analysed['paths'] += len(ps)
+        bad = None
+        seen = False
+        for p in ps:
+            la = p.calls('looking_at')
+            if not la:
+                continue
+            seen = True
+            extra = [lin.le(L(e.result), L(N)) for e in p.calls('skip_ws') if e.args[0] == S and e.args[1] == N] if skip_le_n else []
+            for e in la:
                 if e.args[0] != S or e.args[1] != N:
-                    bad = '%s called with a different input window' % fn
-    ck.verdict(bad is None and seen, 'C20.a', 'sx_parse_token:callsite', cast.where(u.fn('sx_parse_token')),
-               'the tokenizer returns at end of input and calls looking_at only with position < n' if bad is None and seen else (bad or 'call site not found'))
+                    bad = 'looking_at at %s is applied to a different input window' % e.where()
+                    continue
+                # only the facts established before the call may be used
+                before = []
+                for c in p.cond_terms():
+                    if sym.contains(c, e.result):
+                        break
+                    before.append(c)
+                fb = eng2.path_facts(before) + extra
+                if not eng2.entails(fb, L(e.args[2]) + 1 - L(N)):
+                    bad = ('looking_at at %s reads s[%s] but position < n is not established before the call '
+                           '(input ending in whitespace inside a list: one octet beyond a length-delimited input is read)'
+                           % (e.where(), fmt(e.args[2])))
+            if caller == 'sx_parse_token':
+                sk = p.calls('skip_ws')
+                if not sk or la[0].args[2] != sk[0].result:
+                    bad = bad or 'looking_at is not applied to the position skip_ws returned'
+                for fn in ('parse_integer', 'parse_hinteger', 'parse_symbol'):
+                    for e in p.calls(fn):
+                        if e.args[0] != S or e.args[1] != N:
+                            bad = '%s called with a different input window' % fn
+        nsites += 1
+        ck.verdict(bad is None and seen, 'C20.a', '%s:callsite' % caller, cast.where(f),
+                   'looking_at is called only with position < n (end-of-input test dominates the call)' if bad is None and seen else (bad or 'call site not found'))
+    ck.floor('C20.a', 'functions calling looking_at', nsites, 1)
+    # direct reads of s[] in the remaining functions that receive the window
+    done = {'skip_ws', 'looking_at', 'parse_symbol', 'parse_integer_'}
+    eng3 = sym.Engine(u, sizeof={}, inline=set())
+    eng3.record_loads = True
+    for caller in sorted(u.functions):
+        f = u.fn(caller)
+        if not (cast.node_file(f) or '').endswith('sx.c') or u.body(caller) is None or caller in done:
+            continue
+        pn = [q['name'] for q in u.params(caller)]
+        if pn[:2] != ['s', 'n']:
+            continue
+        ps = eng3.paths(caller)
+        bad = None
+        nl = 0
+        for p in ps:
+            extra = [lin.le(L(e.result), L(N)) for e in p.calls('skip_ws') if e.args[0] == S and e.args[1] == N] if skip_le_n else []
+            seen_conds = []
+            order = [(id(e), e) for e in p.effects]
+            for e, ix in s_loads(p):
+                nl += 1
+                if not eng3.entails(eng3.path_facts(p) + extra, L(ix) + 1 - L(N)):
+                    bad = 's[%s] is read at %s without index < n established' % (fmt(ix), e.where())
+        if nl:
+            ck.function(caller)
+            ck.analysed['paths'] += len(ps)
+            ck.verdict(bad is None, 'C20.a', '%s:reads' % caller, cast.where(f), 'all %d direct reads of s[] are below n' % nl if bad is None else bad)
     # parse_symbol / parse_integer_: forward scans guarded by j < n
     for fn in ('parse_symbol', 'parse_integer_'):
         ck.function(fn)
